@@ -87,6 +87,12 @@ def main():
             "needs_to_manifest": meta_txt.strip(), "confirmed": confirmed,
             "what_i_ran": ran, "check_results": results, "tier": tier,
             "detected": any(r["exit"] == 1 for r in results.values())}
+    try:      # a one-line summary written by hand survives a re-run
+        old = json.load(open(os.path.join(dst, "meta.json")))
+        if old.get("summary"):
+            meta["summary"] = old["summary"]
+    except Exception:
+        pass
     json.dump(meta, open(os.path.join(dst, "meta.json"), "w"), indent=1)
     sh(["git", "-C", "/repo", "worktree", "remove", "--force", wt])
     shutil.rmtree("/tmp/seedwt/target-" + name, ignore_errors=True)
